@@ -21,6 +21,7 @@
                                                            -> C05_continue_partial (hyp. not_gen_frame) *)
 From NL Require Import Bdb.Model Bdb.Basics Bdb.Filters Bdb.StepMode Bdb.ContinueMode Bdb.NextMode Bdb.NextProps.
 From NL Require Bdb.Options.
+From NL Require Bdb.Interp Gen.BdbFuns Bdb.Tie Bdb.TieProps.
 Open Scope list_scope.
 Open Scope Z_scope.
 
@@ -262,6 +263,140 @@ Proof.
     split; [vm_compute; auto|]. vm_compute. reflexivity.
 Qed.
 
+(** ---- TIE: theorems about the REGENERATED code (Gen/BdbFuns.v, translate/bdb_funs.py: the installed CPython
+    bdb.py; custom.py, factory.py, filter.py, plugins/__init__.py, global_.py, utils.py, call.py of /repo) interpreted
+    by Bdb/Interp.v; proofs in Bdb/Tie.v, Bdb/TieFilter.v, Bdb/TieProps.v.  Each says: for ALL debugger states, frames and events the
+    interpretation of the current source is never stuck and equals the function of the hand-written Bdb/Model.v. *)
+Section Tie.
+Import Bdb.Interp Gen.BdbFuns Bdb.Tie Bdb.TieProps.
+Local Open Scope string_scope.
+
+(** Bdb.stop_here *)
+Theorem C05_tie_stop_here : forall e user s f vw,
+  call methods e user FUEL "stop_here" [VFrame f (Some vw)] s
+  = Some (VBool (stop_here (s_dbg (i_st s)) f (v_line vw)), s).
+Proof. exact tie_stop_here. Qed.
+
+(** Bdb._set_stopinfo (quitting is reset, the default stoplineno is 0) *)
+Theorem C05_tie_set_stopinfo : forall e user st fr q out sf rf ln,
+  call methods e user FUEL "_set_stopinfo" [of_opt sf; of_opt rf; VInt ln] (mkI st fr q out)
+  = Some (VNone, mkI (set_dbg st (set_stopinfo (s_dbg st) sf rf ln)) fr false out).
+Proof. exact tie_set_stopinfo. Qed.
+
+(** the five commands: Bdb.set_step / set_next / set_return / set_until and CustomizedPdb.set_continue (the override
+    shadows Bdb.set_continue: no sys.settrace(None), no f_trace deleted) on the frame Pdb selected *)
+Theorem C05_tie_commands : forall c e st returning out,
+  run_cmd methods e c (cur_val st e) (mkI st (fr_of e returning) false out)
+  = Some (mkI (apply_cmd c st e returning) (fr_of e returning) false out).
+Proof. exact tie_commands. Qed.
+
+(** Bdb.user_X -> Pdb.interaction -> CustomizedPdb.cmdloop inside CmdloopHook: one prompt and one command when the
+    event came through a WithContext closure, NOTHING (no prompt, no change of the stop info) otherwise *)
+Theorem C05_tie_interaction : forall pol i w e returning st out,
+  interact pol i w e (mkI st (fr_of e returning) false out)
+  = Some (let '(st', p) := interaction pol i w returning st e in
+          mkI st' (fr_of e returning) false (app out (opt_list p))).
+Proof. exact tie_interaction. Qed.
+
+(** the four dispatch functions *)
+Theorem C05_tie_dispatch_line : forall pol i w st e,
+  dcall pol i w e "dispatch_line" [eframe e] st = (let '(st', p) := dispatch_line pol i w st e in res VTrace st' p).
+Proof. exact tie_dispatch_line. Qed.
+
+Theorem C05_tie_dispatch_call : forall pol i st e,
+  dcall pol i true e "dispatch_call" [eframe e; VArg] st
+  = (let '(st', p, t) := dispatch_call pol i st e in res (if t then VTrace else VNone) st' p).
+Proof. exact tie_dispatch_call. Qed.
+
+Theorem C05_tie_dispatch_return : forall pol i w st e,
+  dcall pol i w e "dispatch_return" [eframe e; VArg] st = (let '(st', p) := dispatch_return pol i w st e in res VTrace st' p).
+Proof. exact tie_dispatch_return. Qed.
+
+Theorem C05_tie_dispatch_exception : forall pol i w st e,
+  dcall pol i w e "dispatch_exception" [eframe e; VArg] st = (let '(st', p) := dispatch_exception pol i w st e in res VTrace st' p).
+Proof. exact tie_dispatch_exception. Qed.
+
+(** Bdb.trace_dispatch (the function factory.py installs for every trace) selects them by the event name *)
+Theorem C05_tie_trace_dispatch : forall pol i w st e,
+  (e_kind e = KCall -> w = true) ->
+  dcall pol i w e "trace_dispatch" [eframe e; VStr (kname (e_kind e)); VArg] st = expected pol i w st e.
+Proof. exact tie_trace_dispatch. Qed.
+
+(** CustomizedPdb.__init__: botframe None, stop info (None, None, 0) *)
+Theorem C05_tie_init : forall c e user st fr q out,
+  exec methods e user FUEL (m_body custom_init) [] (mkI st fr q out)
+  = Some (ONext, [], mkI (set_dbg st (s_dbg (init c))) fr false out).
+Proof. exact tie_init. Qed.
+
+Theorem C05_tie_overrides :
+  forallb (fun x => existsb (String.eqb x) ["_cmdloop"; "cmdloop"; "set_continue"]) custom_overrides = true
+  /\ existsb (String.eqb "set_continue") custom_overrides = true
+  /\ existsb (String.eqb "cmdloop") custom_overrides = true.
+Proof. exact tie_overrides. Qed.
+
+(** filter.py: each `filter` implementation; plugins/__init__.py register(): the registration order; pluggy's LIFO,
+    trylast-last, first-result rule over them; GlobalTraceFunc.global_trace_func *)
+Theorem C05_tie_filter_class : forall f c e s,
+  match find_class (fname_str f) filter_classes with Some k => run_class c e k s | None => None end
+  = Some (run_filter c f e s).
+Proof. exact tie_filter_class. Qed.
+
+Theorem C05_tie_registered : forall c,
+  map (fun kt => (fc_name (fst kt), snd kt)) (iregistered (c_modules c))
+  = map (fun ft => (fname_str (fst ft), snd ft)) (registered c).
+Proof. exact tie_registered. Qed.
+
+Theorem C05_tie_first_result : forall c e s,
+  ichain filter_classes register_prog c e s = Some (first_result c (call_order (registered c)) e s).
+Proof. exact tie_first_result. Qed.
+
+Theorem C05_tie_rejected : forall c e s,
+  irejected filter_classes register_prog global_trace_prog c e s = Some (rejected c e s).
+Proof. exact tie_rejected. Qed.
+
+(** ... and against the attribute-level specification [accept_attr] directly (no second translator involved) *)
+Theorem C05_tie_filter_chain_attr : forall c e fs,
+  irejected filter_classes register_prog global_trace_prog c e fs
+  = Some (negb (fst (accept_attr c e fs)), snd (accept_attr c e fs)).
+Proof. exact tie_filter_chain_attr. Qed.
+
+Theorem C05_tie_lambda_rejected : forall c e s,
+  e_lam e = true -> exists s1, irejected filter_classes register_prog global_trace_prog c e s = Some (true, s1).
+Proof. exact tie_lambda_rejected. Qed.
+
+(** WithContext._local_trace keeps the closure on the frame iff the wrapped function returned non-None;
+    sys_trace installs threading.settrace only under `if thread:` *)
+Theorem C05_tie_local_trace : forall r, wexec FUEL local_trace_prog r = Some r.
+Proof. exact tie_local_trace. Qed.
+
+Theorem C05_tie_sys_trace : sys_trace_thread_guarded = true.
+Proof. exact tie_sys_trace. Qed.
+
+(** one raw event, and a whole stream, through the regenerated code = the model: every theorem above about
+    [prompts] / [trace_calls] is a theorem about the interpretation of the current source ... *)
+Theorem C05_tie_step : forall c pol i st e, istep c pol i st e = Some (step c pol i st e).
+Proof. exact tie_step. Qed.
+
+Theorem C05_tie_run : forall c pol evs, irun c pol evs = Some (run c pol evs).
+Proof. exact tie_run. Qed.
+
+(** ... for instance C05_filters *)
+Theorem C05_tie_filters_transfer : forall c pol evs ps tcs p,
+  frame_attrs_const evs -> irun c pol evs = Some (ps, tcs) -> In p ps ->
+  exists e, nth_error evs (p_idx p) = Some e /\
+            p_kind p = e_kind e /\ p_line p = e_line e /\ p_fid p = e_fid e /\
+            e_lam e = false /\
+            (c_modules c = false -> e_mc e = MScript) /\
+            (c_modules c = true -> e_mc e <> MSkip).
+Proof. exact tie_filters_transfer. Qed.
+
+Example C05_tie_example_nonvacuous :
+  option_map (fun r => map p_idx (fst r)) (irun tie_cfg (all Step) tie_stream) = Some [1; 2; 3; 4; 5; 6; 7; 8]%nat /\
+  option_map (fun r => map p_idx (fst r)) (irun tie_cfg (all Next) tie_stream) = Some [1; 2; 7; 8]%nat /\
+  option_map (fun r => map p_idx (fst r)) (irun tie_cfg (all Continue) tie_stream) = Some [1]%nat.
+Proof. exact tie_example. Qed.
+End Tie.
+
 Print Assumptions C05_filters.
 Print Assumptions C05_threads_off.
 Print Assumptions C05_callable_refuted.
@@ -279,3 +414,25 @@ Print Assumptions C05_next_partial.
 Print Assumptions C05_next_nothing_inside_calls.
 Print Assumptions C05_next_every_line.
 Print Assumptions C05_next_after_return.
+Print Assumptions C05_tie_stop_here.
+Print Assumptions C05_tie_set_stopinfo.
+Print Assumptions C05_tie_commands.
+Print Assumptions C05_tie_interaction.
+Print Assumptions C05_tie_dispatch_line.
+Print Assumptions C05_tie_dispatch_call.
+Print Assumptions C05_tie_dispatch_return.
+Print Assumptions C05_tie_dispatch_exception.
+Print Assumptions C05_tie_trace_dispatch.
+Print Assumptions C05_tie_init.
+Print Assumptions C05_tie_overrides.
+Print Assumptions C05_tie_filter_class.
+Print Assumptions C05_tie_registered.
+Print Assumptions C05_tie_first_result.
+Print Assumptions C05_tie_rejected.
+Print Assumptions C05_tie_filter_chain_attr.
+Print Assumptions C05_tie_lambda_rejected.
+Print Assumptions C05_tie_local_trace.
+Print Assumptions C05_tie_sys_trace.
+Print Assumptions C05_tie_step.
+Print Assumptions C05_tie_run.
+Print Assumptions C05_tie_filters_transfer.
